@@ -4,8 +4,8 @@ import (
 	"fmt"
 	"os"
 	"regexp"
-	"strconv"
 	"sort"
+	"strconv"
 	"strings"
 	"sync"
 	"time"
@@ -31,7 +31,11 @@ func hostileClasses(v *smt.Term) map[string]*smt.Term {
 	m["javascript:/data: reference"] = smt.Translate(`(^|[^a-z0-9./_:\\])(javascript|data):`).Match(v)
 	_ = urlChar
 	plain := smt.ReConcat(smt.ReUnion(smt.ReLit("http:"), smt.ReLit("https:")), smt.SigmaStar)
-	bad := smt.ReConcat(smt.SigmaStar, smt.ReLit("url("), smt.ReOpt(smt.ReUnion(smt.ReLit("\""), smt.ReLit("'"))), smt.ReComp(plain))
+	quote := smt.ReUnion(smt.ReLit("\""), smt.ReLit("'"))
+	// after "url(": a quote followed by something that is not a plain reference,
+	// or no quote and not a plain reference
+	after := smt.ReUnion(smt.ReConcat(quote, smt.ReComp(plain)), smt.ReComp(smt.ReUnion(smt.ReConcat(quote, smt.SigmaStar), plain)))
+	bad := smt.ReConcat(smt.SigmaStar, smt.ReLit("url("), after)
 	m["url() that is not a plain http/https reference"] = smt.InRe(v, bad)
 	return m
 }
